@@ -101,7 +101,9 @@ func C14(t *testing.T, ch *choice.Source, opt harness.Options, env *Env) harness
 			c.EarlyExit &^= 1 // at least one wavefront stays
 		}
 	}
-	cfgDigest := digestString(fmt.Sprintf("%+v %+v", c, knobs))
+	specNoPtr := c.Spec
+	specNoPtr.Mini = nil // a pointer would print as an address
+	cfgDigest := digestString(fmt.Sprintf("%+v %d %d %d %v %d %+v %+v", specNoPtr, c.Kind, c.NWf, c.Rounds, c.EarlyExit, c.NumWG, *knobs, emuRef))
 	probes := map[string]uint64{}
 	switch c.Kind {
 	case 0:
